@@ -314,6 +314,9 @@ def c20_config(work, tree_root, p_api, p_stat, variant):
     curve: pidc
     controlAlgorithm: pid
 """
+    # every second topology gives the file fan its paths in the documented "~" form (joined to the home directory by
+    # fan2go; enough ".." lead back to the root)
+    tilde = "~" + "/.." * 12
     curve_entries = [
         '  - id: lin\n    linear:\n      sensor: cpu\n      min: 30\n      max: 70\n',
         '  - id: steps\n    linear:\n      sensor: board\n      steps:\n        - 30: 0\n        - 50: 100\n        - 80: 255\n',
@@ -384,8 +387,8 @@ curves:
         maxPwmChangePerCycle: 5
   - id: f4
     file:
-      path: {work}/filefan
-      rpmPath: {work}/filefan_rpm
+      path: {ffpath}
+      rpmPath: {ffrpm}
     neverStop: false
     curve: mx
     pwmMap:
@@ -404,7 +407,8 @@ curves:
     neverStop: false
     curve: pidc
     controlAlgorithm: direct{extra}
-""".format(work=work, t=rates[0], r=rates[1], c=rates[2], p_api=p_api, p_stat=p_stat, extra=extra_fans, curves="".join(curve_entries))
+""".format(work=work, t=rates[0], r=rates[1], c=rates[2], p_api=p_api, p_stat=p_stat, extra=extra_fans, curves="".join(curve_entries),
+           ffpath=(tilde + work if variant % 2 == 1 else work) + "/filefan", ffrpm=(tilde + work if variant % 2 == 1 else work) + "/filefan_rpm")
 
 
 def c20_one_run(binary, work, idx, duration, merged, rng):
